@@ -6,13 +6,13 @@
 #   tools/mutrig.sh run <patch> C0x...    apply patch to the worktree, run quick checks of the listed properties, revert
 #   tools/mutrig.sh clean                 remove everything
 set -e
-RIG=/tmp/vmut; WT=/tmp/vmut-repo
+RIG=${RIG:-/tmp/vmut}; WT=${RIG}-repo
 case "$1" in
   setup)
     flock /tmp/repo-git.lock git -C /repo worktree add -q --detach $WT HEAD
     mkdir -p $RIG
     rsync -a --delete --exclude work --exclude replays /verif/ $RIG/ 2>/dev/null || true
-    sed -i "s#/repo#$WT#g" $RIG/harness/Cargo.toml
+    sed -i "s#\"/repo#\"$WT#g" $RIG/harness/Cargo.toml
     ;;
   sync)
     rsync -a --exclude .git --exclude work --exclude replays --exclude harness/target --exclude lean/.lake --exclude harness/Cargo.toml /verif/ $RIG/
